@@ -15,80 +15,14 @@ import (
 	"net"
 	"os"
 	"path/filepath"
-	"regexp"
-	"sort"
-	"strings"
 	"testing"
 	"time"
 
 	goconfig "github.com/TheCacophonyProject/go-config"
+	zz "github.com/TheCacophonyProject/thermal-recorder/zzverif"
 
 	"verifsim"
 )
-
-var raceLogOffset = map[string]int64{}
-
-// newRaceReports returns the race reports written since the last call.
-func newRaceReports() []string {
-	base := os.Getenv("VERIF_RACELOG")
-	if base == "" {
-		return nil
-	}
-	files, _ := filepath.Glob(base + ".*")
-	var out []string
-	for _, f := range files {
-		b, err := os.ReadFile(f)
-		if err != nil {
-			continue
-		}
-		off := raceLogOffset[f]
-		if int64(len(b)) <= off {
-			continue
-		}
-		txt := string(b[off:])
-		raceLogOffset[f] = int64(len(b))
-		for _, rep := range strings.Split(txt, "==================") {
-			if strings.Contains(rep, "WARNING: DATA RACE") {
-				out = append(out, rep)
-			}
-		}
-	}
-	return out
-}
-
-var reFunc = regexp.MustCompile(`(?m)^  (\S+)\(.*\)\n\s+(\S+):(\d+)`)
-
-// raceSignature: innermost repository function of each of the two access stacks.
-func raceSignature(rep string) (string, string) {
-	// split into the two access stacks: "Write at ... by goroutine N:" / "Previous read at ... by ..."
-	parts := regexp.MustCompile(`(?m)^(?:Read|Write|Previous read|Previous write|Atomic read|Atomic write|Previous atomic read|Previous atomic write) at .*$`).Split(rep, -1)
-	var fns []string
-	for _, p := range parts[1:] {
-		if i := strings.Index(p, "\nGoroutine "); i >= 0 {
-			p = p[:i]
-		}
-		inner := ""
-		for _, m := range reFunc.FindAllStringSubmatch(p, -1) {
-			fn, file := m[1], m[2]
-			if strings.Contains(fn, "thermal-recorder/") && !strings.Contains(file, "zz_verif") && !strings.Contains(fn, "zzverif") {
-				inner = fn
-				break
-			}
-		}
-		if inner != "" {
-			inner = strings.TrimPrefix(inner, "github.com/TheCacophonyProject/thermal-recorder/")
-			fns = append(fns, inner)
-		}
-		if len(fns) == 2 {
-			break
-		}
-	}
-	if len(fns) == 0 {
-		return "", ""
-	}
-	sort.Strings(fns)
-	return strings.Join(fns, " | "), strings.TrimSpace(rep)
-}
 
 func runCRace(r *verifsim.Run) {
 	sc := genSnapScenario(r)
@@ -110,7 +44,7 @@ func runCRace(r *verifsim.Run) {
 		r.Set(fmt.Sprintf("conn%d", i), cn.describe())
 	}
 	r.Set("clients", fmt.Sprintf("%v %q", gaps, kinds))
-	newRaceReports() // discard anything reported before this run
+	zz.NewRaceReports() // discard anything reported before this run
 	verifsim.SetRaceSeed(r.Seed)
 	verifsim.SetMode(verifsim.ModeRace)
 	defer verifsim.SetMode(verifsim.ModeOff)
@@ -188,10 +122,10 @@ func runCRace(r *verifsim.Run) {
 		r.Violate("C16", "C16.panic", "frame-loop", "the frame loop panicked while requests were being served concurrently: %s", panicMsg)
 		return
 	}
-	reps := newRaceReports()
+	reps := zz.NewRaceReports()
 	r.Count("race_reports", len(reps))
 	for _, rep := range reps {
-		sig, txt := raceSignature(rep)
+		sig, txt := zz.RaceSignature(rep)
 		if sig == "" {
 			r.Probe("race-report-outside-repository")
 			continue
